@@ -258,6 +258,10 @@ def loop_carried(prog, func, want_range, ctx, sr):
                 continue
             if ty == '()' or ty.startswith('&') and 'mut' not in ty:
                 continue
+            if ty == 'bool' and body.local_name(l) == '_%d' % l and all(
+                    s_['rv']['k'] == 'use' and s_['rv']['op']['k'] == 'const' for bb_ in body.blocks for s_ in bb_['stmts']
+                    if s_['k'] == 'assign' and s_['place']['local'] == l and not s_['place']['proj']):
+                continue      # a drop flag the compiler keeps for a value that is moved out conditionally (no source-level state)
             # closures: only those with a mutable environment carry state
             if 'closure@' in ty:
                 cl = [c for c in prog.closures_of.get(func, []) if prog.bodies[c].locals[1]['ty'].startswith('&mut')]
@@ -489,6 +493,30 @@ def footprint_row(ctx, chk, meths, rule='R-FOOT'):
     chk.cover('footprint sites', eps_seen, meths)
 
 
+def peeled(eng, st, evl, lh):
+    """the range of the loop entered at event `lh`, extended by the cells of the cursor row that are stored one by one
+    after it on this path at the column just past its end (a peeled last iteration)"""
+    d = lh[4]
+    if d is None or not g.elementwise(d[4]) or not (isinstance(d[1], NumV) and isinstance(d[2], NumV)):
+        return None
+    try:
+        i0 = max(i for i, e in enumerate(evl) if e is lh or e == lh)
+    except ValueError:
+        return None
+    hi = NumV(d[2].sym, d[2].k + 1, d[2].ty) if d[3] else d[2]
+    y0 = st.vn.get(('entry', 'y'))
+    grew = False
+    for e in evl[i0 + 1:]:
+        if e[0] == 'loop-head':
+            break
+        if e[0] == 'map.insert' and e[1] and e[1][0] == 'S' and len(e[1]) > 2 and e[1][1] == 'buffer' and isinstance(e[2], NumV):
+            row = g.row_of_path(e[1])
+            if isinstance(row, NumV) and isinstance(y0, NumV) and eng.prove_cmp(st, 'eq', row, y0) is True and eng.prove_cmp(st, 'eq', e[2], hi) is True:
+                hi = NumV(hi.sym, hi.k + 1, hi.ty)
+                grew = True
+    return ('range', d[1], hi, False, d[4]) if grew else None
+
+
 def blank_provenance(ctx, chk, meths, want, rule='R-BLANK'):
     """blank cells stored by these methods: want = 'default_char' (default rendition) or 'cursor.attr'"""
     sr = ctx.screen_run()
@@ -675,8 +703,14 @@ def must_footprint(ctx, chk, scope):
             cands = path_loops(st.event_list(), 'cursor-row', f)
             ok = False
             why = 'no loop that stores a cell of the cursor row in every iteration is run'
+            evl = st.event_list()
             for ev in cands:
                 okc, w = g.range_covers(eng, st, ev[4], rng[0], rng[1])
+                if not okc:
+                    # a last (or first) iteration written out after the loop: `while x < stop { put(x); x += 1 } put(stop)`
+                    d2 = peeled(eng, st, evl, ev)
+                    if d2 is not None:
+                        okc, w = g.range_covers(eng, st, d2, rng[0], rng[1])
                 if okc:
                     ok = True
                     break
